@@ -57,6 +57,7 @@ type hist struct {
 	keys    map[string]map[string]*ecdsa.PrivateKey              // valoper -> chain -> private key behind the registered PUBLIC KEY (consensus queues)
 	skyKeys map[string]map[string]*ecdsa.PrivateKey              // valoper -> chain -> private key behind the registered ACCOUNT ADDRESS (skyway confirms)
 	alias   map[string]map[string]*alias                         // valoper -> chain -> alias in force
+	degen   map[string]*degenReg                                 // valoper|chain -> degenerate key shape registered last (degen.go)
 	keyGen  int
 	pend    []pendTx
 	jobs    map[string]string
